@@ -1,4 +1,4 @@
 ------------------------------ MODULE MCStreams ------------------------------
 EXTENDS Streams, Json, TLC
-EmitInv == PrintT(<<"CASE", ToJson([ops |-> hist])>>)
+EmitInv == (Len(hist) = MaxOps \/ crashed \/ stolen) => PrintT(<<"CASE", ToJson([ops |-> hist])>>)
 =============================================================================
